@@ -11,31 +11,37 @@ Every request carries `"op": "<suite>.<name>"`; the suite prefix selects the han
 -/
 open Lean
 
-def dispatch (j : Json) : Except String Json := do
+structure DriverState where
+  rt : Driver.Rt.State := {}
+
+def dispatch (st : DriverState) (j : Json) : Except String (DriverState × Json) := do
   let op ← Driver.jstr j "op"
-  if op.startsWith "be." then Driver.Be.handle op j
-  else if op.startsWith "cli." then Driver.Cli.handle op j
-  else if op.startsWith "rt." then Driver.Rt.handle op j
-  else if op.startsWith "fe." then Driver.Fe.handle op j
-  else if op.startsWith "graph." then Driver.Graph.handle op j
-  else if op.startsWith "decl." then Driver.Decl.handle op j
+  let pure' (r : Except String Json) : Except String (DriverState × Json) := r.map fun x => (st, x)
+  if op.startsWith "be." then pure' (Driver.Be.handle op j)
+  else if op.startsWith "cli." then pure' (Driver.Cli.handle op j)
+  else if op.startsWith "rt." then do
+    let (rt, r) ← Driver.Rt.handle st.rt op j
+    pure ({ st with rt }, r)
+  else if op.startsWith "fe." then pure' (Driver.Fe.handle op j)
+  else if op.startsWith "graph." then pure' (Driver.Graph.handle op j)
+  else if op.startsWith "decl." then pure' (Driver.Decl.handle op j)
   else throw s!"unknown suite in op {op}"
 
-partial def loop (hin : IO.FS.Stream) (hout : IO.FS.Stream) : IO Unit := do
+partial def loop (hin : IO.FS.Stream) (hout : IO.FS.Stream) (st : DriverState) : IO Unit := do
   let line ← hin.getLine
   if line.isEmpty then return ()
   let line := line.trimAsciiEnd.toString
-  if line.isEmpty then loop hin hout else
-  let reply := match Json.parse line with
-    | .error e => Driver.err s!"json: {e}"
-    | .ok j => match dispatch j with
+  if line.isEmpty then loop hin hout st else
+  let (st', reply) := match Json.parse line with
+    | .error e => (st, Driver.err s!"json: {e}")
+    | .ok j => match dispatch st j with
       | .ok r => r
-      | .error e => Driver.err e
+      | .error e => (st, Driver.err e)
   hout.putStrLn reply.compress
-  loop hin hout
+  loop hin hout st'
 
 def main : IO Unit := do
   let hin ← IO.getStdin
   let hout ← IO.getStdout
-  loop hin hout
+  loop hin hout {}
   hout.flush
